@@ -12,6 +12,7 @@ CONSTANTS MaxPending,  \* max unsynchronised operations per replica
           MaxSyncs,    \* total budget of sync calls
           MaxLen,      \* schedule length at which a simulated behaviour is emitted
           Urg,         \* urgencies the server may answer (subset of Urgencies)
+          Sit,         \* which situation EmitSit looks for (see InSit)
           WithTrim,    \* TRUE: the server may discard versions covered by its snapshot
           EditKinds,   \* kinds of operations local edits may use (subset of {"C","D","U","P"})
           Emit         \* TRUE: print one REPLAY line per finished behaviour
@@ -120,6 +121,16 @@ PInit ==
 Done == \/ AllIdle /\ ((Quiescent /\ edits = MaxEdits) \/ syncs = MaxSyncs)
         \/ \E r \in Replicas : err[r]
         \/ Len(h) = MaxLen
+
+(* Situations that random schedules rarely reach; TLC finds shortest schedules into them *)
+InSit(r) ==
+  CASE Sit = "reject2"  -> sy[r].nrej >= 2                          \* rejected twice in one sync
+    [] Sit = "rejectmid" -> sy[r].nrej >= 1 /\ db[r].base < sy[r].tb /\ sy[r].cur # <<>>
+                                                                    \* rejected after an own version
+    [] Sit = "snaprace" -> sy[r].pc = "snapshot" /\ sy[r].tb < Len(chain)
+                                                                    \* snapshot due, chain moved on
+    [] OTHER -> FALSE
+EmitSit == (Emit /\ \E r \in Replicas : InSit(r)) => PrintT(<<"REPLAY", ToJson(h)>>)
 
 EmitReplay == (Emit /\ Done) => PrintT(<<"REPLAY", ToJson(h)>>)
 =============================================================================
